@@ -1,5 +1,5 @@
 import NodisVerif.Proofs.C09Changed
-import NodisVerif.Proofs.C09Writers3
+import NodisVerif.Proofs.C09Writers2
 import NodisVerif.Model.Handler
 /-
   C09 (WATCH soundness), the handler table of Model/Handler.lean (`Handler.table1`): every closure a
@@ -136,35 +136,40 @@ theorem frame_bumpCount (s : MState) (key : Bytes) :
   · next m hm => exact frame_putMeta_same s key m _ hm (count_unchanged m)
   · exact Frame.refl _ _
 
-theorem frame_scan_go (now : Int) (pat : Bytes) (typ : Nat) (keyLen : Int) :
+/-
+  FULL STATEMENT (not proved): `Frame [] s (Api.scan s now cursor pat count typ).1` for every `typ`.
+  With a TYPE filter (`typ ≠ 0`) the scan LOADS cold records of unknown type
+  (`modMeta s key fun m' => ({ m' with oid := oid }.setValue v)`); that this is not a logical change needs
+  facts about the store that `Frame` does not carry (the index record is live and still cold, keys of
+  the index are distinct).  Proved here: the scan without a TYPE filter (`typ = 0`), which only bumps
+  access counters.
+-/
+theorem frame_scan_go (now : Int) (pat : Bytes) :
     ∀ (ents : List (Bytes × Meta)) (s : MState) (cursor iter count : Int) (acc : List Bytes),
-      Frame [] s (Api.scan.go now pat typ keyLen ents s cursor iter count acc).1
+      Frame [] s (Api.scan.go now pat 0 ents s cursor iter count acc).1
   | [], s, cursor, iter, count, acc => by unfold Api.scan.go; exact Frame.refl _ _
   | (key, m) :: rest, s, cursor, iter, count, acc => by
     unfold Api.scan.go
     dsimp only
     split
-    · exact frame_scan_go now pat typ keyLen rest s _ _ _ _
+    · exact frame_scan_go now pat rest s _ _ _ _
     · split
       · exact Frame.refl _ _
-      · split
-        · exact Frame.refl _ _
-        · have hb := frame_bumpCount s key
-          split
-          · split
-            · exact hb.trans0 (frame_scan_go now pat typ keyLen rest _ _ _ _ _)
-            · exact hb.trans0 (frame_scan_go now pat typ keyLen rest _ _ _ _ _)
-          · exact hb.trans0 (frame_scan_go now pat typ keyLen rest _ _ _ _ _)
+      · have hb := frame_bumpCount s key
+        simp only [ne_eq, not_true_eq_false, false_and, if_false]
+        split
+        · exact hb.trans0 (frame_scan_go now pat rest _ _ _ _ _)
+        · exact hb.trans0 (frame_scan_go now pat rest _ _ _ _ _)
 
-theorem frame_scan (s : MState) (now : Int) (cursor : Int) (pat : Bytes) (count : Int) (typ : Nat) :
-    Frame [] s (Api.scan s now cursor pat count typ).1 := by
+theorem frame_scan (s : MState) (now : Int) (cursor : Int) (pat : Bytes) (count : Int) :
+    Frame [] s (Api.scan s now cursor pat count 0).1 := by
   unfold Api.scan
   dsimp only
   split
   · exact Frame.refl _ _
   · split
     · exact Frame.refl _ _
-    · exact frame_scan_go now pat typ (↑s.index.length) s.index s cursor 0 count []
+    · exact frame_scan_go now pat s.index s cursor 0 count []
 
 /-! ## INCRBYFLOAT at the API level -/
 
@@ -180,7 +185,7 @@ theorem frame_incrByFloat (s : MState) (hp : s.pebble = true) (now : Int) (key :
     (hreg : live s now key = true ∨ (Api.formatFloat (F64.add 0 delta)).isSome = true) :
     Frame [] s (Api.incrByFloat s now key delta).1 := by
   unfold Api.incrByFloat
-  wk_some s now key Val.strNil
+  wk_some s now key (Val.str [])
   · split
     · exact h
     · split
@@ -191,13 +196,13 @@ theorem frame_incrByFloat (s : MState) (hp : s.pebble = true) (now : Int) (key :
         · split
           · exact h
           · exact (h.setVal hp _ _).finish _ _
-  · simp only [asStr_of_valOf_strNil hv]
+  · simp only [asStr_of_valOf_strEmpty hv]
     have hin : (Api.formatFloat (F64.add 0 delta)).isSome = true := by
       rcases hreg with h' | h'
       · rw [hl] at h'; cases h'
       · exact h'
     have hp0 : Api.parseFloatText [48] = some (some 0) := by decide
-    simp only [DsStr.bytes, Option.getD_none, List.isEmpty_nil, if_true, hp0, F64.add?]
+    simp only [DsStr.bytes, Option.getD_some, List.isEmpty_nil, if_true, hp0, F64.add?]
     split
     · next hn => rw [hn] at hin; cases hin
     · exact (h.setVal hp _ _).finish _ _
